@@ -1,6 +1,6 @@
 """Per-property check plans: which model configurations TLC explores and on
 which systems the emitted behaviours are replayed."""
-from .core import Report, tour_stage
+from .core import Report, tour_stage, walk_stage
 
 ALL4 = ["mem", "bolt", "multimem", "multios"]
 CORE_OPS = {"CreateBucket", "HeadBucket", "DeleteBucket", "ListBuckets", "PutObject", "GetObject", "HeadObject",
@@ -86,7 +86,7 @@ def c05(tier, seed, work):
 
 def list_consts(**kw):
     c = dict(Alphabet={45, 47, 97, 98}, MaxLen=3, MaxSet=2, PrefixLen=2, Delims={0, 47, 45, 97}, FsDomain=False,
-             CfgName="plain", Shard=0, Shards=1)
+             CfgName="plain", Shard=0, Shards=1, Markers=False)
     c.update(kw)
     return c
 
@@ -115,4 +115,70 @@ def c03(tier, seed, work):
     return rep
 
 
-PLANS = {"C02": c02, "C05": c05, "C03": c03}
+def c04(tier, seed, work):
+    rep = Report("C04", tier, seed)
+    n = 3 if tier == "thorough" else 2
+    # paginating backend: every key set (incl. shared common prefixes) x prefix x delimiter x
+    # max-keys 1..n+1 x V1/V2, following the server's continuation
+    walk_stage(rep, work, "mem-walks", "MC_List", list_consts(MaxSet=n, MaxLen=3, PrefixLen=1, Delims={0, 47}),
+               ["mem"], "objects", invariants=["EmitInv"], view=None, emit=None, tlc_workers=8)
+    # single pages under arbitrary markers (present, absent, inside a common prefix, beyond the end):
+    # keys after the marker exactly; a common prefix the marker falls inside is optional
+    tour_stage(rep, work, "mem-markers", "MC_List",
+               list_consts(MaxSet=2, MaxLen=3 if tier == "thorough" else 2, PrefixLen=1, Delims={0, 47}, CfgName="mem", Markers=True),
+               ["mem"], invariants=["EmitInv"], view=None, emit=None, tlc_workers=8)
+    # fallback path of the non-paginating backends: complete listing, IsTruncated=false
+    walk_stage(rep, work, "fallback-walks", "MC_List",
+               list_consts(MaxSet=2, MaxLen=2, PrefixLen=1, Delims={0, 47}, FsDomain=True),
+               ["bolt", "multimem", "multios"], "objects", invariants=["EmitInv"], view=None, emit=None, tlc_workers=8)
+    # the same with the unimplemented-page option: every listing is refused with NotImplemented
+    tour_stage(rep, work, "pageerr", "MC_Store",
+               store_consts(Buckets={"bkt1"}, CfgName="plainerr", Ghosts=False,
+                            OpNames={"CreateBucket", "PutObject", "DeleteObject", "ListObjects", "GetObject"}),
+               ["bolt", "multimem", "singlemem"] if False else ["bolt", "multimem"], opts="pageerr")
+    # delete-marked keys: walks over the object listing of versioned histories
+    walk_stage(rep, work, "mem-dm-walks", "MC_Store",
+               store_consts(Buckets={"bkt1"}, KeySetName="nest2", CfgName="mem", Bodies={"x1"},
+                            MaxVids=3 if tier == "thorough" else 2, Ghosts=False,
+                            OpNames={"CreateBucket", "PutObject", "DeleteObject", "PutVersioning"}),
+               ["mem"], "objects", emit=None, invariants=["EmitState"])
+    rep.assumptions += [
+        "a walk follows the server's continuation: NextMarker (or the last key when absent) for V1, "
+        "NextContinuationToken for V2; arbitrary start-after/marker values are single-page tours",
+        "a common prefix that an arbitrary marker falls inside may or may not be reported (DESIGN 5.2)",
+    ]
+    return rep
+
+
+def c13(tier, seed, work):
+    rep = Report("C13", tier, seed)
+    thorough = tier == "thorough"
+    # single-page version listings after every mutating transition of the versioned model
+    # (the audit of each tour lists all versions and reads each by id)
+    tour_stage(rep, work, "ver-2k-audit", "MC_Store",
+               store_consts(Buckets={"bkt1"}, KeySetName="nest2", CfgName="mem", Bodies={"x1"},
+                            MaxVids=3 if thorough else 2, Ghosts=False,
+                            OpNames={"CreateBucket", "PutObject", "DeleteObject", "PutVersioning",
+                                     "DeleteObjectVersion", "ListVersions"}),
+               ["mem"], invariants=VER_INVS, properties=STORE_PROPS, small=True)
+    # never-versioned buckets report the id 'null'; non-versioned front end refuses
+    tour_stage(rep, work, "never-versioned", "MC_Store",
+               store_consts(Buckets={"bkt1"}, KeySetName="nest2", CfgName="mem", Ghosts=False,
+                            OpNames={"CreateBucket", "PutObject", "DeleteObject", "ListVersions"}),
+               ["mem"], small=True)
+    # paging: walks with the key/version markers the server returns
+    walk_stage(rep, work, "version-walks", "MC_Store",
+               store_consts(Buckets={"bkt1"}, KeySetName="nest2", CfgName="mem", Bodies={"x1"},
+                            MaxVids=3 if thorough else 2, Ghosts=False,
+                            OpNames={"CreateBucket", "PutObject", "DeleteObject", "PutVersioning",
+                                     "DeleteObjectVersion"}),
+               ["mem"], "versions", emit=None, invariants=["EmitState"])
+    rep.assumptions += [
+        "the order of versions inside one key is followed, not required",
+        "walks take the unpaginated listing (itself compared with the specification by the audits) as the "
+        "store content and require the pages to deliver exactly it",
+    ]
+    return rep
+
+
+PLANS = {"C02": c02, "C05": c05, "C03": c03, "C04": c04, "C13": c13}
